@@ -1,6 +1,7 @@
 package yaml
 
 import (
+	"fmt"
 	"io"
 	"os"
 
@@ -9,7 +10,7 @@ import (
 )
 
 type Compiler struct {
-	Passes []CompilerPass `yaml:"passes"`
+	Passes []*CompilerPass `yaml:"passes"`
 }
 
 type CompilerLoader struct {
@@ -62,6 +63,13 @@ func (loader *CompilerLoader) Load(reader io.Reader) (compiler.Passes, error) {
 
 	// convert compiler passes
 	for _, passConfig := range compilerConfig.Passes {
+		// Entries are decoded into pointers: the YAML decoder silently drops
+		// null elements (`- ~`, a dangling `-`) of a slice of structs, whereas
+		// it keeps them as nil pointers. A null entry is an empty pass.
+		if passConfig == nil {
+			return nil, fmt.Errorf("empty compiler pass")
+		}
+
 		pass, err := passConfig.AsCompilerPass()
 		if err != nil {
 			return nil, err
